@@ -25,25 +25,31 @@ Proof. reflexivity. Qed.
 
 (* ---- the outgoing handler chain emits no wire and never touches the logon state ---- *)
 
-Lemma run_out_handlers_spec cfg m hs : forall s s' o ok,
-  run_out_handlers cfg s m hs = (s', o, ok) ->
-  wire_types o = [] /\ s_state s' = s_state s /\ s_settings s' = s_settings s
+Lemma mt_of_amend id m : mt_of (amend_msg id m) = mt_of m.
+Proof. reflexivity. Qed.
+
+Lemma run_out_handlers_spec cfg hs : forall m s s' o ok m',
+  run_out_handlers cfg s m hs = (s', o, ok, m') ->
+  wire_types o = [] /\ mt_of m' = mt_of m /\ s_state s' = s_state s /\ s_settings s' = s_settings s
   /\ s_cnt_out s' = s_cnt_out s /\ s_cnt_in s' = s_cnt_in s /\ s_in s' = s_in s /\ s_out s' = s_out s
   /\ s_ev s' = s_ev s /\ s_cancelled s' = s_cancelled s /\ s_router_stopped s' = s_router_stopped s
   /\ s_gen s' = s_gen s /\ s_timers_on s' = s_timers_on s /\ s_testreq s' = s_testreq s
   /\ s_intimer_done s' = s_intimer_done s.
 Proof.
-  induction hs as [|h hs IH]; intros s s' o ok H; cbn [run_out_handlers] in H.
+  induction hs as [|h hs IH]; intros m s s' o ok m' H; cbn [run_out_handlers] in H.
   - inversion H; subst. repeat split.
-  - destruct h as [|g|id acc].
+  - destruct h as [|g|id acc am].
     + destruct (existsb _ _).
       * inversion H; subst. repeat split.
-      * destruct (run_out_handlers cfg _ m hs) as [[s1 o1] ok1] eqn:E. inversion H; subst.
-        destruct (IH _ _ _ _ E) as (T & R). cbn [wire_types flat_map app]. split; [exact T|exact R].
+      * destruct (run_out_handlers cfg _ m hs) as [[[s1 o1] ok1] m1] eqn:E. inversion H; subst.
+        destruct (IH _ _ _ _ _ _ E) as (T & R). cbn [wire_types flat_map app]. split; [exact T|exact R].
     + eapply IH. exact H.
     + destruct acc.
-      * destruct (run_out_handlers cfg s m hs) as [[s1 o1] ok1] eqn:E. inversion H; subst.
-        destruct (IH _ _ _ _ E) as (T & R). split; [exact T|exact R].
+      * destruct am.
+        -- destruct (run_out_handlers cfg _ (amend_msg id m) hs) as [[[s1 o1] ok1] m1] eqn:E. inversion H; subst.
+           destruct (IH _ _ _ _ _ _ E) as (T & M & R). split; [exact T|]. split; [rewrite M; reflexivity|exact R].
+        -- destruct (run_out_handlers cfg s m hs) as [[[s1 o1] ok1] m1] eqn:E. inversion H; subst.
+           destruct (IH _ _ _ _ _ _ E) as (T & R). split; [exact T|exact R].
       * inversion H; subst. repeat split.
 Qed.
 
@@ -67,13 +73,13 @@ Lemma router_send_spec cfg s m s' o ok :
   /\ same_control s s' /\ s_cnt_out s' = s_cnt_out s.
 Proof.
   unfold router_send. intro H.
-  destruct (run_out_handlers cfg s m (pool_get (s_out s) ALL)) as [[s1 o1] ok1] eqn:E1.
-  destruct (run_out_handlers_spec _ _ _ _ _ _ _ E1) as (T1 & A1).
+  destruct (run_out_handlers cfg s m (pool_get (s_out s) ALL)) as [[[s1 o1] ok1] m1] eqn:E1.
+  destruct (run_out_handlers_spec _ _ _ _ _ _ _ _ E1) as (T1 & M1 & A1).
   assert (C1 : same_control s s1 /\ s_cnt_out s1 = s_cnt_out s) by (unfold same_control; intuition).
   destruct ok1; cbn [negb] in H.
   2:{ inversion H; subst. rewrite wire_types_app, T1. cbn. split; [left; reflexivity|]. split; [discriminate|]. exact C1. }
-  destruct (run_out_handlers cfg s1 m (pool_get (s_out s1) (mt_of m))) as [[s2 o2] ok2] eqn:E2.
-  destruct (run_out_handlers_spec _ _ _ _ _ _ _ E2) as (T2 & A2).
+  destruct (run_out_handlers cfg s1 m1 (pool_get (s_out s1) (mt_of m1))) as [[[s2 o2] ok2] m2] eqn:E2.
+  destruct (run_out_handlers_spec _ _ _ _ _ _ _ _ E2) as (T2 & M2 & A2).
   assert (C2 : same_control s s2 /\ s_cnt_out s2 = s_cnt_out s).
   { destruct C1 as [C1 O1]. split; [eapply same_control_trans; [exact C1|]; unfold same_control; intuition|].
     destruct A2 as (_ & _ & O2 & _). congruence. }
@@ -81,8 +87,10 @@ Proof.
   2:{ inversion H; subst. rewrite !wire_types_app, T1, T2. cbn. split; [left; reflexivity|]. split; [discriminate|]. exact C2. }
   destruct (s_router_stopped s2).
   - inversion H; subst. rewrite !wire_types_app, T1, T2. cbn. split; [left; reflexivity|]. split; [discriminate|]. exact C2.
-  - inversion H; subst. rewrite !wire_types_app, T1, T2. cbn [wire_types flat_map app].
-    split; [right; reflexivity|]. split; [reflexivity|]. exact C2.
+  - inversion H; subst. rewrite !wire_types_app, T1, T2.
+    assert (HM : mt_of m2 = mt_of m) by congruence.
+    split; [right|split; [intros _|exact C2]];
+      cbn [wire_types flat_map app]; unfold mt_of in *; cbn [m_mt]; rewrite HM; reflexivity.
 Qed.
 
 (* Session.send *)
